@@ -143,7 +143,7 @@ def ts_join(rng):
     if groups and r.random() < 0.5:
         conds.append(f"t.g = {r.choice([1, 2])}")
         pf = True
-    extra = r.choice(['', '', '', 'order', 'group', 'offset', 'foreign'])
+    extra = r.choice([''] * 10 + ['order', 'group', 'offset', 'foreign'])
     r.shuffle(conds)
     left = r.random() < 0.25
     tbl = 'int1.series AS t'
